@@ -898,6 +898,57 @@ func propC05(c *Ctx) {
 				}
 			}
 		}
+		// the explicit cursor form of the same walk
+		for _, p := range paths {
+			for i := range p.Events {
+				ev := &p.Events[i]
+				f, m, ok := collOp(ev)
+				if !ok || f != "OutputProposals" || m != "Iterate" {
+					continue
+				}
+				walks++
+				o.Sites++
+				if rng := strip(ev.Call.Args[2]).Key(); rng != "(*collections.PairRange[K1, K2]).Descending(collections.NewPrefixedPairRange(bridgeId))" {
+					o.Fail(c.evPos(ev), "cursor range is "+rng+", want NewPrefixedPairRange(bridgeId).Descending()", nil)
+				}
+				if !p.OK() || p.Panic {
+					continue
+				}
+				src := ev.Call
+				validAt := func(k int64, want bool) bool {
+					return p.HasFact(len(p.Events), func(a *Term, pol bool) bool {
+						if a.Op != "opaque" || a.Name != "itervalid" || len(a.Args) != 2 || a.Args[0].String() != src.String() {
+							return false
+						}
+						v, ok := a.Args[1].Int()
+						return ok && v == k && pol == want
+					})
+				}
+				n := int64(0)
+				for validAt(n, true) {
+					n++
+				}
+				cfgV := "(collections.Map[K, V]).Get(k.BridgeConfigs, ctx, bridgeId).0"
+				for j := int64(0); j < n; j++ {
+					outV := "opaque:cbarg1(" + src.Key() + ")"
+					if j > 0 {
+						outV = fmt.Sprintf("opaque:cbarg1(%s, %d)", src.Key(), j)
+					}
+					rel, nf := finalityRelK(p, len(p.Events), outV, cfgV)
+					if nf == 0 {
+						o.Fail(c.W.Pos(g.Pos()), fmt.Sprintf("cursor position %d is passed without the finality comparison", j), c.Dump(p, i))
+						continue
+					}
+					last := j == n-1
+					switch {
+					case rel&rLT == 0 && !last:
+						o.Fail(c.W.Pos(g.Pos()), "the cursor moves on past a final output", c.Dump(p, i))
+					case rel == rLT && last && !validAt(n, false):
+						o.Fail(c.W.Pos(g.Pos()), "the cursor is left at a non-final output before it is exhausted", c.Dump(p, i))
+					}
+				}
+			}
+		}
 		if walks == 0 {
 			o.Fail(c.W.Pos(g.Pos()), "no OutputProposals.Walk reached", nil)
 		}
